@@ -612,3 +612,70 @@ func (in *Interp) indexByte(hay Str, b *Term) Value {
 	}
 	return mkConst(64, uint64(int64(in.findFirst(hay, 0, strFromTerms([]*Term{b})))))
 }
+
+// sort.Slice, sort.SliceStable, sort.SliceIsSorted: the reflection-based
+// length and swapper are replaced by engine functions over the slice value;
+// the sorting algorithm itself (stable_func, pdqsort_func) runs from its SSA.
+func init() {
+	sortWith := func(algo string) intrinsic {
+		return func(in *Interp, c *frame, fn *ssa.Function, a []Value) Value {
+			x, ok := a[0].(Iface)
+			if !ok {
+				panic(unsupported("sort.Slice on non-interface"))
+			}
+			s, ok := x.V.(Slice)
+			if !ok {
+				panic(unsupported(fmt.Sprintf("sort.Slice on %T", x.V)))
+			}
+			pkg := in.prog.ImportedPackage("sort")
+			if pkg == nil {
+				panic(unsupported("package sort not loaded"))
+			}
+			swap := &Native{f: func(in *Interp, args []Value) Value {
+				i := int(args[0].(*Term).c)
+				j := int(args[1].(*Term).c)
+				if !args[0].(*Term).IsConst() || !args[1].(*Term).IsConst() {
+					panic(unsupported("sort swap with symbolic index"))
+				}
+				s.A[s.Off+i], s.A[s.Off+j] = s.A[s.Off+j], s.A[s.Off+i]
+				return nil
+			}}
+			n := mkConst(64, uint64(s.Len))
+			switch algo {
+			case "stable":
+				f := pkg.Func("stable_func")
+				in.call(c, f, []Value{Struct{a[1], swap}, n})
+			case "pdq":
+				f := pkg.Func("pdqsort_func")
+				limit := mkConst(64, uint64(bitsLen(uint(s.Len))))
+				in.call(c, f, []Value{Struct{a[1], swap}, mkConst(64, 0), n, limit})
+			case "issorted":
+				for i := s.Len - 1; i > 0; i-- {
+					r := in.call(c, a[1], []Value{mkConst(64, uint64(i)), mkConst(64, uint64(i-1))}).(*Term)
+					lt := false
+					if r.IsConst() {
+						lt = r.c != 0
+					} else {
+						lt = in.w.branchT(r)
+					}
+					if lt {
+						return tFalse
+					}
+				}
+				return tTrue
+			}
+			return nil
+		}
+	}
+	reg("sort.SliceStable", sortWith("stable"))
+	reg("sort.Slice", sortWith("pdq"))
+	reg("sort.SliceIsSorted", sortWith("issorted"))
+}
+
+func bitsLen(x uint) int {
+	n := 0
+	for ; x != 0; x >>= 1 {
+		n++
+	}
+	return n
+}
